@@ -122,7 +122,7 @@ class C10(Prop):
         "`encoding` (the reported codec name) is not part of the compared result; everything else canon() sees is",
         "line-level interleaving never shares an object between clients (lasio makes no thread-safety promise)",
     ]
-    quick = {"runs": 1500, "wall": 45}
+    quick = {"runs": 6000, "wall": 60}
     thorough = {"runs": 60000, "wall": 900}
 
     def gen(self, st, tier, index):
